@@ -975,9 +975,9 @@ func seq(tier string, seed uint64) {
 	fmt.Fprintf(out, "G\tG reset\n")
 	resetRules()
 	directed()
-	nSess := 400
+	nSess := 1500
 	if tier == "thorough" {
-		nSess = 4000
+		nSess = 12000
 	}
 	for i := 0; i < nSess; i++ {
 		if i%7 == 3 {
